@@ -67,8 +67,6 @@ impl<'a> AttributeEncoderContext<'a> {
         final(self).encoded_msg == old(self).encoded_msg, final(self).ctx == old(self).ctx,
 //@end
 }
-#[verifier::external_body]
-pub struct HMACKey { _p: () }
 //@item! stun_rs :: mod context > struct DecoderContext
 //@item! stun_rs :: mod context > struct AttributeDecoderContext
 impl Clone for DecoderContext {
